@@ -615,7 +615,8 @@ pub fn cluster_post(
     let all_live = live.len() == n;
     let dissemination_guaranteed = matches!(cfg.dissem, cluster::DissemKind::Trivial) || all_live;
     let mut qualifying = 0u64;
-    let max_slot = obs.first_shred_ms.keys().next_back().map_or(0, |s| s.inner());
+    // (hostile leaders also sign blocks for absurdly distant slots: those are not windows of this run)
+    let max_slot = obs.first_shred_ms.keys().filter(|s| s.inner() < (1u64 << 40)).next_back().map_or(0, |s| s.inner());
     let mut w = 1u64;
     while w * 4 + 3 <= max_slot {
         let first = w * 4;
